@@ -2,6 +2,7 @@ SPECIFICATION SpecMC
 CONSTANTS
   Cycles = 2
   Lost = {}
+  LostKinds = {}
   MCCtors = {"c.para", "c.headingbm", "c.tbl.2x2"}
   MCFeats = {"p.keepNext.on", "p.bold.on", "p.format.full", "t.nested.d1", "t.merge.h", "p.addbreak"}
   MCSect = {"s.titlepg.on"}
